@@ -312,18 +312,21 @@ def _r11(ctx):
         fp = [q for q in f.params if "prob" in q]
         bc = [s_ for s_ in f.node.body if isinstance(s_, ast.Assign) and isinstance(s_.value, ast.Call) and
               isinstance(s_.value.func, ast.Attribute) and s_.value.func.attr == "broadcast"]
-        if len(bc) != 1 or not fp or not isinstance(bc[0].value.func.value, ast.Name):
+        if len(bc) != 1 or not fp:
             raise AnalysisError("%s: broadcast of the transformed curve not found" % name)
-        recv = bc[0].value.func.value.id
-        defs = [s_ for s_ in walk_function(f.node) if isinstance(s_, ast.Assign) and any(isinstance(t, ast.Name) and t.id == recv
-                                                                                          for t in s_.targets)]
-        bad = [d for d in defs if not (isinstance(d.value, ast.Call) and isinstance(d.value.func, ast.Attribute) and
-                                       is_self_attr(d.value.func, "transform_to_failure_probability") and d.value.args and
-                                       isinstance(d.value.args[0], ast.Name) and d.value.args[0].id == fp[0])]
+        recv = bc[0].value.func.value
+        if isinstance(recv, ast.Name):
+            defs = [s_.value for s_ in walk_function(f.node) if isinstance(s_, ast.Assign) and
+                    any(isinstance(t, ast.Name) and t.id == recv.id for t in s_.targets)]
+        else:
+            defs = [recv]                      # receiver written in place
+        bad = [d for d in defs if not (isinstance(d, ast.Call) and isinstance(d.func, ast.Attribute) and
+                                       is_self_attr(d.func, "transform_to_failure_probability") and d.args and
+                                       isinstance(d.args[0], ast.Name) and d.args[0].id == fp[0])]
         if defs and not bad:
             ctx.holds(f, bc[0], "%s: parameters come from transform_to_failure_probability(%s) (%d definition(s))" % (name, fp[0], len(defs)))
         else:
-            ctx.violated(f, (bad or bc)[0], "%s: on some path the curve is used as given (%s) instead of being transformed to the "
+            ctx.violated(f, bc[0], "%s: on some path the curve is used as given (%s) instead of being transformed to the "
                          "requested failure probability: for a curve whose native probability is not the requested one the result "
                          "belongs to another probability" % (name, norm_text((bad or bc)[0])), text="untransformed curve in " + name)
 
